@@ -48,12 +48,6 @@ def PreAll : State → List Change → Prop
   | _, [] => True
   | s, c :: cs => Pre s c ∧ ∀ s1 a r, applyForward s c = some (s1, a, r) → PreAll s1 cs
 
-/-- the change kinds whose backward deltas differ from the forward ones (finding F13) -/
-def Change.isHS : Change → Bool
-  | .htlcSpent _ _ => true
-  | .secondSpent _ => true
-  | _ => false
-
 /-! ### small list facts -/
 
 theorem setFirst_undo (op : OutPoint) (l l' : List (OutPoint × Bool))
@@ -220,37 +214,37 @@ theorem position_lt_length {v : Nat} {l : List Nat} {i : Nat} (h : position v l 
 theorem fwd_bwd_one {s s1 : State} {c : Change} {a r : List OutPoint}
     (hp : Pre s c) (h : applyForward s c = some (s1, a, r)) :
     ∃ s2 a' r', applyBackward s1 c = some (s2, a', r') ∧ eqModDs s2 s ∧
-      (c.isHS = false → a' = a ∧ r' = r) := by
+      (a' = a ∧ r' = r) := by
   cases c with
   | fundingConfirmed op =>
     simp only [applyForward, Option.some.injEq, Prod.mk.injEq] at h
     obtain ⟨rfl, rfl, rfl⟩ := h
     obtain ⟨h1, h2⟩ := hp
-    refine ⟨_, _, _, by simp only [applyBackward, if_true]; rfl, ?_, fun _ => ⟨rfl, rfl⟩⟩
+    refine ⟨_, _, _, by simp only [applyBackward, if_true]; rfl, ?_, ⟨rfl, rfl⟩⟩
     cases s; simp_all [eqModDs, clr]
   | fundingInputSpent op =>
     simp only [applyForward, Option.some.injEq, Prod.mk.injEq] at h
     obtain ⟨rfl, rfl, rfl⟩ := h
-    refine ⟨_, _, _, by simp only [applyBackward]; rfl, ?_, fun _ => ⟨rfl, rfl⟩⟩
+    refine ⟨_, _, _, by simp only [applyBackward]; rfl, ?_, ⟨rfl, rfl⟩⟩
     cases s; simp [eqModDs, clr]
   | unilateral txid fo our htlcs =>
     simp only [applyForward, Option.some.injEq, Prod.mk.injEq] at h
     obtain ⟨rfl, rfl, rfl⟩ := h
     obtain ⟨h1, h2⟩ := hp
-    refine ⟨_, _, _, by simp only [applyBackward, if_true]; rfl, ?_, fun _ => ⟨rfl, rfl⟩⟩
+    refine ⟨_, _, _, by simp only [applyBackward, if_true]; rfl, ?_, ⟨rfl, rfl⟩⟩
     cases s; simp_all [eqModDs, clr]
   | «mutual» txid fo =>
     simp only [applyForward, Option.some.injEq, Prod.mk.injEq] at h
     obtain ⟨rfl, rfl, rfl⟩ := h
     have h1 : s.mutualHeight = none := hp
-    refine ⟨_, _, _, by simp only [applyBackward]; rfl, ?_, fun _ => ⟨rfl, rfl⟩⟩
+    refine ⟨_, _, _, by simp only [applyBackward]; rfl, ?_, ⟨rfl, rfl⟩⟩
     cases s; simp_all [eqModDs, clr]
   | ourSpent v =>
     obtain ⟨cl, hcl, hour⟩ := hp
     simp only [applyForward, hcl, Closing.setOurSpent, hour, if_true, Option.map_some,
       Option.some.injEq, Prod.mk.injEq] at h
     obtain ⟨rfl, rfl, rfl⟩ := h
-    refine ⟨s, [], [(cl.txid, v)], ?_, rfl, fun _ => ⟨rfl, rfl⟩⟩
+    refine ⟨s, [], [(cl.txid, v)], ?_, rfl, ⟨rfl, rfl⟩⟩
     simp only [applyBackward, Closing.setOurSpent, if_true, Option.map_some, Option.some.injEq,
       Prod.mk.injEq, and_true]
     cases s; cases cl; simp_all
@@ -261,7 +255,7 @@ theorem fwd_bwd_one {s s1 : State} {c : Change} {a r : List OutPoint}
     simp only [applyForward, hcl, Closing.setHtlcSpent, hpos, hlt, if_true, Option.map_some,
       Option.some.injEq, Prod.mk.injEq] at h
     obtain ⟨rfl, rfl, rfl⟩ := h
-    refine ⟨s, [(cl.txid, v)], [sl], ?_, rfl, fun hh => by simp [Change.isHS] at hh⟩
+    refine ⟨s, [sl], [(cl.txid, v)], ?_, rfl, ⟨rfl, rfl⟩⟩
     have hset : (cl.htlcSpents.set i true).set i false = cl.htlcSpents := by
       rw [List.set_set]
       apply List.ext_getElem?
@@ -279,20 +273,20 @@ theorem fwd_bwd_one {s s1 : State} {c : Change} {a r : List OutPoint}
     obtain ⟨l', hl', hh⟩ := Option.map_eq_some_iff.mp h
     simp only [Function.comp, Prod.mk.injEq] at hh
     obtain ⟨rfl, rfl, rfl⟩ := hh
-    refine ⟨s, [op], [], ?_, rfl, fun hh => by simp [Change.isHS] at hh⟩
+    refine ⟨s, [], [op], ?_, rfl, ⟨rfl, rfl⟩⟩
     simp only [applyBackward, Closing.setSecondSpent, setFirst_undo op _ _ hff hl', Option.map_some]
     cases s; cases cl; simp_all
 
-/-- (E) for every change kind except `htlcSpent`/`secondSpent`, `applyBackward` hands the tracker
-the same `(adds, removes)` as `applyForward` did. -/
+/-- (E) for every change kind `applyBackward` hands the tracker the same `(adds, removes)` as
+`applyForward` did (for `htlcSpent`/`secondSpent` since fix fc0e6dd). -/
 theorem deltas_agree_one {s s1 s2 : State} {c : Change} {a r a' r' : List OutPoint}
-    (hc : c.isHS = false) (hp : Pre s c) (h : applyForward s c = some (s1, a, r))
+    (hp : Pre s c) (h : applyForward s c = some (s1, a, r))
     (hb : applyBackward s1 c = some (s2, a', r')) : a' = a ∧ r' = r := by
   obtain ⟨s2', a'', r'', hb', _, hd⟩ := fwd_bwd_one hp h
   rw [hb] at hb'
   simp only [Option.some.injEq, Prod.mk.injEq] at hb'
   obtain ⟨_, rfl, rfl⟩ := hb'
-  exact hd hc
+  exact hd
 
 theorem applyAll_single (f : State → Change → Option Delta) (s : State) (c : Change) :
     applyAll f s [c] = (f s c).map (fun d => (d.1, d.2.1 ++ [], d.2.2 ++ [])) := by
@@ -316,17 +310,16 @@ theorem bwd_transfer {sa sb s2 : State} {c : Change} {a r : List OutPoint}
     obtain ⟨h1, rfl, rfl⟩ := hc
     exact ⟨s2', rfl, h1⟩
 
-/-- (A) list-level inverse modulo `dsHeight`; for change lists without `htlcSpent`/`secondSpent`
-the backward deltas are permutations of the forward ones. -/
+/-- (A) list-level inverse modulo `dsHeight`; the backward deltas are permutations of the forward ones. -/
 theorem fwd_bwd_all {s s1 : State} {cs : List Change} {a r : List OutPoint}
     (hp : PreAll s cs) (h : applyAll applyForward s cs = some (s1, a, r)) :
     ∃ s2 a' r', applyAll applyBackward s1 cs.reverse = some (s2, a', r') ∧ eqModDs s2 s ∧
-      ((∀ c ∈ cs, c.isHS = false) → a'.Perm a ∧ r'.Perm r) := by
+      (a'.Perm a ∧ r'.Perm r) := by
   induction cs generalizing s s1 a r with
   | nil =>
     simp only [applyAll, Option.some.injEq, Prod.mk.injEq] at h
     obtain ⟨rfl, rfl, rfl⟩ := h
-    exact ⟨s, [], [], rfl, rfl, fun _ => ⟨List.Perm.refl _, List.Perm.refl _⟩⟩
+    exact ⟨s, [], [], rfl, rfl, ⟨List.Perm.refl _, List.Perm.refl _⟩⟩
   | cons c cs ih =>
     simp only [applyAll] at h
     cases hf : applyForward s c with
@@ -345,9 +338,8 @@ theorem fwd_bwd_all {s s1 : State} {cs : List Change} {a r : List OutPoint}
         obtain ⟨s2', hb2, heq2⟩ := bwd_transfer heq hb1
         refine ⟨s2', a2' ++ (a1' ++ []), r2' ++ (r1' ++ []), ?_, heq2.trans heq1, ?_⟩
         · simp only [List.reverse_cons, applyAll_append, hb, applyAll_single, hb2, Option.map_some]
-        · intro hall
-          obtain ⟨rfl, rfl⟩ := hd1 (hall c (by simp))
-          obtain ⟨p1, p2⟩ := hperm (fun c' hc' => hall c' (by simp [hc']))
+        · obtain ⟨rfl, rfl⟩ := hd1
+          obtain ⟨p1, p2⟩ := hperm
           simp only [List.append_nil]
           exact ⟨List.perm_append_comm.trans (List.Perm.append_left _ p1),
                  List.perm_append_comm.trans (List.Perm.append_left _ p2)⟩
@@ -580,7 +572,7 @@ theorem addEnd_removeEnd {s s1 : State} {cs : List Change} {a r : List OutPoint}
     (hfc : ∀ op, Change.fundingConfirmed op ∈ cs → s.dsHeight = none)
     (h : addEnd s cs = some (s1, a, r)) :
     ∃ a' r', removeEnd { s1 with sawBlock := true } cs = some ({ s with sawBlock := true }, a', r') ∧
-      ((∀ c ∈ cs, c.isHS = false) → a'.Perm a ∧ r'.Perm r) := by
+      (a'.Perm a ∧ r'.Perm r) := by
   obtain ⟨wf1, wf2, wf3⟩ := hwf
   rw [addEnd_eq] at h
   cases hfw : applyAll applyForward { s with sawBlock := true, height := s.height + 1 } cs with
